@@ -16,15 +16,29 @@
     * `src_carried_is_recorded`    the table entry: after a flush of the trace that leaves the connection live, every
                                    datagram of THAT flush from which the generated decoder reads a reliable packet with
                                    sequence number `sq` is recorded in the generated `sent_packets` under `sq`, with the
-                                   flush time and exactly the ids (resp. id and slice index) the decoder reads.
+                                   flush time and the ids (resp. id and slice index) the decoder reads;
+    * `src_not_early`              (C15, first clause, on traces)  two flushes of a trace, ANY operations between them, that
+                                   both return a datagram from which the generated decoder reads a transmission of the same
+                                   small message (resp. the same slice) of channel `ch` are at least that channel's
+                                   `resend_time` (field of the generated struct) apart on the generated `current_time`;
+    * `src_clock`                  … which is the trace's own clock: `current_time` grows by exactly the sum of the `update`
+                                   durations of the operations in between;
+    * `src_flush_budget_decoded_partial` / `src_flush_budget_decoded_all`  (C14 through the generated decoder)  the payload
+                                   the generated decoder reads from the datagrams of one flush sums to at most
+                                   `available_bytes_per_tick` (PARTIAL only in that acceptance of every datagram by the decoder
+                                   is not asserted — see the theorem's comment).
 
-  Side conditions: `CRunInRange` (the range condition of the source tie, decidable by evaluation), configured channel ids
-  (`COpValid`, as in `src_never_panics`), and: the reliable send channel ids of the generated struct are bytes (`channel_id`
-  is a `u8` in the Rust source; the generated code carries it as a `Nat`).
+  Side conditions: `CRunInRange` (the range condition of the source tie, decidable by evaluation); for
+  `src_never_after_ack` configured channel ids (`COpValid`, as in `src_never_panics`); and `GChanBytes`: the reliable send
+  channel ids of the generated struct are bytes (`channel_id` is a `u8` in the Rust source; the generated code carries it as a
+  `Nat`, and the wire format truncates it to one byte — without it a packet of channel 300 would be read as one of channel 44).
 
-  Proofs: `SrcConnSystem.crun_sim_conv` + the model theorems of `Lemmas/AckFinal.lean` (`Props/C15A.lean`) along `MTr` runs
-  (`SrcConnC15.mtr_never_after_ack`) + `SrcConnC15.dec_enc_carries` (the decoder reads from an encoding only what the packet
-  carries; no appeal to the full round trip, so no well-formedness side condition on the packets of a flush).
+  Proofs: `SrcConnSystem.crun_sim_conv` + model-level trace theorems of `Lemmas/SrcEquiv/SrcConnC15.lean`:
+  `mtr_never_after_ack` (from `Lemmas/AckFinal.lean`, i.e. `Props/C15A.lean`), `mtr_not_early` (a NEW trace-level invariant:
+  the `last_sent` stamp of a transmitted slot is at least the time of that flush, `StampGE`, kept by every operation; from
+  the one-flush theorems `C15.small_emitted` / `slice_emitted` / `entry_step`), `dec_enc_carries` / `dec_enc_payload` (the
+  decoder reads from an ENCODING only what the packet carries — no appeal to the full round trip, hence no well-formedness
+  side condition on the packets of a flush).
 -/
 import RenetVerif.Lemmas.SrcEquiv.SrcConnC15
 import RenetVerif.Props.SrcPropsConnTrace
@@ -230,6 +244,132 @@ theorem src_carried_is_recorded (cfg : Cfg) (ops : List COp) (g g' : GConn)
         | unreliableSlice _ _ _ => simp only [reprPacket] at hrepr; cases hrepr
         | ack _ _ => simp only [reprPacket] at hrepr; cases hrepr
 
+/-! ## C15, first clause — not earlier than `resend_time` -/
+
+theorem run_single {t t' : MTr} {op : COp} (h : t.run [op] = some t') : t.step op = some t' := by
+  simp only [MTr.run] at h
+  cases hs : t.step op with
+  | none => rw [hs] at h; cases h
+  | some t1 => rw [hs] at h; simp only [MTr.run] at h; rw [h]
+
+/-- **the trace's own clock.**  The generated `current_time` after any continuation `mid` of a trace is the generated
+    `current_time` before plus the sum of the durations of the `update` calls in `mid`. -/
+theorem src_clock (cfg : Cfg) (ops mid : List COp) (g1 g2 : GConn) (h1 : GConn.exec cfg ops = some g1)
+    (h2 : GConn.exec cfg (ops ++ mid) = some g2) (hrg : CRunInRange cfg (ops ++ mid)) :
+    g2.cl.current_time = g1.cl.current_time + (mid.map COp.dt).sum := by
+  obtain ⟨t, t', ht, ht', sim, sim', hgood⟩ := crun_split cfg ops mid g1 g2 hrg h1 h2
+  obtain ⟨mrs, hC⟩ := sim.cl
+  obtain ⟨mrs', hC'⟩ := sim'.cl
+  rw [hC, hC']
+  exact now_run mid t t' (good_run ops _ t (good_init cfg) ht) ht'
+
+/-- **C15 on the generated code: NOT EARLY.**  ANY trace `ops`, then a flush, then ANY operations `mid`, then a flush.  If
+    both flushes return a datagram from which the generated `from_bytes` reads a transmission of the same slot — a
+    `SmallReliable` packet of channel `ch` with message id `id` among its messages (`w = none`), or the `ReliableSlice` packet
+    of channel `ch` for slice `i` of message `id` (`w = some i`) — then that channel's `resend_time` (field of the generated
+    struct) is at most the difference of the generated `current_time` at the two flushes; by `src_clock` that is the sum of
+    the `update` durations in `mid`. -/
+theorem src_not_early (cfg : Cfg) (ops mid : List COp) (g1 g1' g2 g3 : GConn)
+    (h1 : GConn.exec cfg ops = some g1) (h1' : GConn.exec cfg (ops ++ [.flush]) = some g1')
+    (h2 : GConn.exec cfg (ops ++ .flush :: mid) = some g2)
+    (h3 : GConn.exec cfg (ops ++ .flush :: mid ++ [.flush]) = some g3)
+    (hrg : CRunInRange cfg (ops ++ .flush :: mid ++ [.flush]))
+    (hch1 : GChanBytes g1.cl) (hch2 : GChanBytes g2.cl) (ch id : Nat) (w : Option Nat) :
+    ∃ bs1 bs2, g1'.flushes = g1.flushes ++ [bs1] ∧ g3.flushes = g2.flushes ++ [bs2] ∧
+      ∀ b1 ∈ bs1, ∀ b2 ∈ bs2, ∀ gp1 gp2, GDecodes b1 gp1 → GDecodes b2 gp2 → GEmits ch id w gp1 → GEmits ch id w gp2 →
+        ∀ s, RustSem.Map.find? g2.cl.send_reliable_channels ch = some s →
+          s.resend_time ≤ g2.cl.current_time - g1.cl.current_time := by
+  have eC : ops ++ .flush :: mid = (ops ++ [.flush]) ++ mid := by simp
+  have r2 : CRunInRange cfg (ops ++ .flush :: mid) := crunInRange_prefix cfg _ [.flush] hrg
+  have r1 : CRunInRange cfg ops := crunInRange_prefix cfg ops _ r2
+  have r1' : CRunInRange cfg (ops ++ [.flush]) := by rw [eC] at r2; exact crunInRange_prefix cfg _ _ r2
+  obtain ⟨t, ht, sim⟩ := crun_sim_conv cfg ops g1 r1 h1
+  obtain ⟨t1, ht1, sim1⟩ := crun_sim_conv cfg _ g1' r1' h1'
+  obtain ⟨t2, ht2, sim2⟩ := crun_sim_conv cfg _ g2 r2 h2
+  obtain ⟨t3, ht3, sim3⟩ := crun_sim_conv cfg _ g3 hrg h3
+  have s1 : t.step .flush = some t1 := by
+    rw [MTr.run_append, ht] at ht1; exact run_single ht1
+  have s2 : t1.run mid = some t2 := by
+    rw [eC, MTr.run_append, ht1] at ht2; exact ht2
+  have s3 : t2.step .flush = some t3 := by
+    rw [MTr.run_append, ht2] at ht3; exact run_single ht3
+  obtain ⟨mrs, hC⟩ := sim.cl
+  obtain ⟨mrs2, hC2⟩ := sim2.cl
+  rw [hC] at hch1
+  rw [hC2] at hch2
+  have hgd : Good t.c := good_run ops _ t (good_init cfg) ht
+  obtain ⟨bs1, bs2, l1, l3, key⟩ := mtr_not_early hgd s1 s2 s3 (keys_of_gchan hch1) (keys_of_gchan hch2) ch id w
+  refine ⟨bs1.map toNats, bs2.map toNats, ?_, ?_, ?_⟩
+  · rw [sim1.flushes, sim.flushes, l1]; simp only [List.map_append, List.map_cons, List.map_nil]
+  · rw [sim3.flushes, sim2.flushes, l3]; simp only [List.map_append, List.map_cons, List.map_nil]
+  · intro b1 hb1 b2 hb2 gp1 gp2 d1 d2 e1 e2 s hs
+    obtain ⟨b10, hb10, rfl⟩ := List.mem_map.mp hb1
+    obtain ⟨b20, hb20, rfl⟩ := List.mem_map.mp hb2
+    obtain ⟨p1, hp1, rfl⟩ := gdecodes_inv d1
+    obtain ⟨p2, hp2, rfl⟩ := gdecodes_inv d2
+    rw [hC2] at hs
+    simp only [reprConn, find_mapVals] at hs
+    cases hm : SMap.find? t2.c.sendRel ch with
+    | none => rw [hm] at hs; cases hs
+    | some sM =>
+      rw [hm] at hs; cases hs
+      have := key b10 hb10 b20 hb20 p1 p2 hp1 hp2 ((gemits_repr _ _ _ _).1 e1) ((gemits_repr _ _ _ _).1 e2) sM hm
+      rw [hC, hC2]
+      exact this
+
+/-! ## C14 through the generated decoder -/
+
+/-- **C14 on the generated code, datagrams read by the generated decoder (`_partial`).**  In every generated state `g`
+    reached by ANY run (in range), what the generated `get_packets_to_send` returns, read datagram by datagram with the
+    generated `from_bytes`, carries at most `available_bytes_per_tick` bytes of message payload: `gDecPay b` is the payload
+    (`gPayloadBytes`) of the packet `from_bytes` reads from `b`, and `0` when it rejects `b`.
+    PARTIAL in one respect: the theorem does not assert that `from_bytes` ACCEPTS every returned datagram (that is the full
+    round trip and needs `Packet.WF` of every packet of a flush — channel ids bytes, at most `MAX_NUM_SLICES` slices —
+    along the trace, which is not established here); a rejected datagram counts `0`.  The bound itself is unconditional.
+    (Transports `C14.connection_budget` through `SrcConnC15.dec_enc_payload`: the decoder reads from an encoding at most the
+    payload the packet carries.) -/
+theorem src_flush_budget_decoded_partial (cfg : Cfg) (ops : List COp) (g : GConn) (hg : GConn.exec cfg ops = some g)
+    (hrg : CRunInRange cfg (ops ++ [.flush])) :
+    ∃ g' bs, GConn.exec cfg (ops ++ [.flush]) = some g' ∧ g'.flushes = g.flushes ++ [bs] ∧
+      (bs.map gDecPay).sum ≤ g.cl.available_bytes_per_tick := by
+  obtain ⟨g', bs, pk, e, hfl, hb, -, hser⟩ := src_flush_budget cfg ops g hg hrg
+  refine ⟨g', bs, e, hfl, ?_⟩
+  rcases hser with rfl | ⟨bs0, h0, rfl⟩
+  · simp
+  · have h1 := decPay_sum_le pk bs0 (System.serialiseAll_enc pk bs0 h0)
+    have h2 : (bs0.map toNats).map gDecPay = bs0.map decPay := by
+      rw [List.map_map]
+      apply List.map_congr_left
+      intro b _
+      exact gDecPay_toNats b
+    rw [h2]
+    omega
+
+/-- the generated decoder reads the packets `gps` from the datagrams `bs`, one for one -/
+def DecAll : List GBytes → List Src.renet.packet.Packet → Prop
+  | [], [] => True
+  | b :: bs, gp :: gps => GDecodes b gp ∧ DecAll bs gps
+  | _, _ => False
+
+theorem decAll_pay : ∀ (bs : List GBytes) (gps : List Src.renet.packet.Packet), DecAll bs gps →
+    bs.map gDecPay = gps.map gPayloadBytes
+  | [], [], _ => rfl
+  | [], _ :: _, h => h.elim
+  | _ :: _, [], h => h.elim
+  | b :: bs, gp :: gps, h => by
+    simp only [List.map_cons, gDecPay_of_decodes h.1, decAll_pay bs gps h.2]
+
+/-- … in the form "if the generated decoder reads the packets `gps` from the returned datagrams, one for one, their payload
+    sum is at most `available_bytes_per_tick`" -/
+theorem src_flush_budget_decoded_all (cfg : Cfg) (ops : List COp) (g : GConn) (hg : GConn.exec cfg ops = some g)
+    (hrg : CRunInRange cfg (ops ++ [.flush])) :
+    ∃ g' bs, GConn.exec cfg (ops ++ [.flush]) = some g' ∧ g'.flushes = g.flushes ++ [bs] ∧
+      ∀ gps, DecAll bs gps → (gps.map gPayloadBytes).sum ≤ g.cl.available_bytes_per_tick := by
+  obtain ⟨g', bs, e, hfl, hb⟩ := src_flush_budget_decoded_partial cfg ops g hg hrg
+  refine ⟨g', bs, e, hfl, fun gps hall => ?_⟩
+  rw [← decAll_pay bs gps hall]
+  exact hb
+
 /-! ## non-vacuity: a retransmission trace, executed by the kernel ON THE GENERATED CODE
 
   One reliable channel 0 with `resend_time` 100 ns.  `opsA`: connect, submit `[1, 2, 3]` (message id 0), flush at t = 0
@@ -261,7 +401,8 @@ theorem gdec_of {b : GBytes} {gp : Src.renet.packet.Packet} (h : GDecodes b gp) 
 
 theorem inRange : CRunInRange cfg (opsA ++ .process ack :: ext) := by decide +kernel
 theorem valid : ∀ op ∈ opsA ++ .process ack :: ext, COpValid cfg op := by decide +kernel
-theorem grunF : GConn.exec cfg (opsA.take 2) = some ((GConn.exec cfg (opsA.take 2)).getD gzero) := some_getD (by decide +kernel) _
+theorem grunF : GConn.exec cfg (opsA.take 2) = some ((GConn.exec cfg (opsA.take 2)).getD gzero) :=
+  some_getD (by decide +kernel) _
 theorem grunF' : GConn.exec cfg (opsA.take 2 ++ [.flush]) = some gF := some_getD (by decide +kernel) _
 theorem grunA : GConn.exec cfg opsA = some gA := some_getD (by decide +kernel) _
 theorem grunE : GConn.exec cfg (opsA ++ .process ack :: ext) = some gE := some_getD (by decide +kernel) _
@@ -312,6 +453,125 @@ theorem never_again : ∃ news, gE.flushes = gA.flushes ++ news ∧ ∀ bs ∈ n
     flush 2 did not (it had not) -/
 example : (gA.flushes.map (·.map fun b => (gdec b).map fun gp => decide (GCarriesMsg 0 0 gp))) =
     [[some true], [], [some true]] := by decide +kernel
+
+theorem gdecodes_of_gdec {b : GBytes} {gp : Src.renet.packet.Packet} (h : gdec b = some gp) : GDecodes b gp := by
+  unfold gdec at h
+  unfold GDecodes
+  cases hx : Src.renet.packet.Packet.from_bytes (RustSem.Octets.with_slice b) with
+  | ok x => obtain ⟨cur, p⟩ := x; rw [hx] at h; cases h; exact ⟨cur, rfl⟩
+  | err e => rw [hx] at h; cases h
+  | panic s => rw [hx] at h; cases h
+
+/-! #### not early, on the same trace: flush 1 and flush 3 both transmit message 0 -/
+def g0 : GConn := (GConn.exec cfg (opsA.take 2)).getD gzero
+def g2 : GConn := (GConn.exec cfg (opsA.take 6)).getD gzero
+/-- the first datagram of the `k`-th flush of the whole run -/
+def dgram (k : Nat) : GBytes := (gA.flushes.getD k []).headD []
+
+theorem grun2 : GConn.exec cfg (opsA.take 2 ++ .flush :: [.update 50, .flush, .update 60]) = some g2 :=
+  some_getD (by decide +kernel) _
+theorem grun3 : GConn.exec cfg (opsA.take 2 ++ .flush :: [.update 50, .flush, .update 60] ++ [.flush]) = some gA :=
+  some_getD (by decide +kernel) _
+
+/-- **`src_not_early` applied** to flush 1 and flush 3 of the trace (`mid = [update 50, flush, update 60]`): both return a
+    datagram read as a `SmallReliable` packet of channel 0 carrying message 0, so `resend_time` (100 ns) is at most the
+    clock difference … -/
+theorem not_early_applied : ∀ s, RustSem.Map.find? g2.cl.send_reliable_channels 0 = some s →
+    s.resend_time ≤ g2.cl.current_time - g0.cl.current_time := by
+  obtain ⟨bs1, bs2, e1, e2, h⟩ := src_not_early cfg (opsA.take 2) [.update 50, .flush, .update 60] g0 gF g2 gA
+    grunF grunF' grun2 grun3 (by decide +kernel) (by decide +kernel) (by decide +kernel) 0 0 none
+  have f1 : gF.flushes = g0.flushes ++ [[dgram 0]] := by decide +kernel
+  have f2 : gA.flushes = g2.flushes ++ [[dgram 2]] := by decide +kernel
+  rw [f1] at e1
+  rw [f2] at e2
+  have b1 : bs1 = [dgram 0] := by have := List.append_cancel_left e1; simpa using this.symm
+  have b2 : bs2 = [dgram 2] := by have := List.append_cancel_left e2; simpa using this.symm
+  subst b1; subst b2
+  exact h (dgram 0) (by simp) (dgram 2) (by simp) (.SmallReliable 0 0 [(0, [1, 2, 3])]) (.SmallReliable 1 0 [(0, [1, 2, 3])])
+    (gdecodes_of_gdec (by decide +kernel)) (gdecodes_of_gdec (by decide +kernel)) (by decide) (by decide)
+
+/-- … which, with `src_clock`, is the sum of the `update` durations between them: 50 + 60 ns -/
+example : g2.cl.current_time = g0.cl.current_time + (50 + 0 + 60) :=
+  src_clock cfg (opsA.take 2) [.flush, .update 50, .flush, .update 60] g0 g2 grunF grun2 (by decide +kernel)
+
+/-- and the flush in between (50 ns after the first, less than `resend_time`) returned nothing: the bound is not idle -/
+example : gA.flushes.getD 1 [[0]] = [] ∧ (RustSem.Map.find? g2.cl.send_reliable_channels 0).map (·.resend_time) = some 100 ∧
+    g2.cl.current_time = 110 ∧ g0.cl.current_time = 0 := by decide +kernel
+
+/-! #### C14 through the generated decoder, on the same trace -/
+
+/-- **`src_flush_budget_decoded_partial` applied** to one more flush after the whole trace -/
+example : ∃ g' bs, GConn.exec cfg ((opsA ++ .process ack :: ext) ++ [.flush]) = some g' ∧ g'.flushes = gE.flushes ++ [bs] ∧
+    (bs.map gDecPay).sum ≤ gE.cl.available_bytes_per_tick :=
+  src_flush_budget_decoded_partial cfg _ gE grunE (by decide +kernel)
+
+/-- the decoded payload of the five flushes of the trace, computed by the kernel on the generated code (every datagram IS
+    accepted by the generated decoder here: `gfacts`), against the budget of 60000 bytes per tick -/
+example : gE.flushes.map (fun bs => (bs.map gDecPay).sum) = [3, 0, 3, 0, 2] ∧ gE.cl.available_bytes_per_tick = 60000 := by
+  decide +kernel
+
+/-! #### a sliced message: the slice-level statements are not idle
+
+  A 1300-byte message (id 0: two slices 1200 + 100) is submitted and flushed at t = 0 (packets 0, 1) and, 100 ns later, again
+  (packets 2, 3).  An Ack packet for packet 3 (slice 1) is processed; 100 ns later the next flush transmits slice 0 again —
+  slice 1 never. -/
+abbrev big : Bytes := List.replicate 1300 7
+abbrev opsS : List COp := [.setConnected, .send 0 big, .flush, .update 100, .flush]
+def ackS : Bytes := match (Packet.ack 0 [(3, 4)]).toBytes SER_BUFFER with | .ok b => b | _ => []
+abbrev extS : List COp := [.update 100, .flush]
+def gS0 : GConn := (GConn.exec cfg (opsS.take 2)).getD gzero
+def gS1 : GConn := (GConn.exec cfg (opsS.take 3)).getD gzero
+def gS2 : GConn := (GConn.exec cfg (opsS.take 4)).getD gzero
+def gS : GConn := (GConn.exec cfg opsS).getD gzero
+def gSE : GConn := (GConn.exec cfg (opsS ++ .process ackS :: extS)).getD gzero
+
+/-- sequence number and slice index of what the generated decoder reads -/
+def sliceOf (b : GBytes) : Option (Nat × Nat) :=
+  match gdec b with
+  | some (.ReliableSlice sq _ sl) => some (sq, sl.slice_index)
+  | _ => none
+
+theorem grunS0 : GConn.exec cfg (opsS.take 2) = some gS0 := some_getD (by decide +kernel) _
+theorem grunS1 : GConn.exec cfg (opsS.take 2 ++ [.flush]) = some gS1 := some_getD (by decide +kernel) _
+theorem grunS2 : GConn.exec cfg (opsS.take 2 ++ .flush :: [.update 100]) = some gS2 := some_getD (by decide +kernel) _
+theorem grunS : GConn.exec cfg opsS = some gS := some_getD (by decide +kernel) _
+theorem grunS' : GConn.exec cfg (opsS.take 2 ++ .flush :: [.update 100] ++ [.flush]) = some gS := some_getD (by decide +kernel) _
+theorem grunSE : GConn.exec cfg (opsS ++ .process ackS :: extS) = some gSE := some_getD (by decide +kernel) _
+
+/-- the three flushes as the generated decoder reads them: (sequence number, slice index) -/
+theorem sfacts :
+    gSE.flushes.map (·.map sliceOf) =
+      [[some (0, 0), some (1, 1)], [some (2, 0), some (3, 1)], [some (4, 0), none]] ∧
+    RustSem.Map.find? gS.cl.sent_packets 3 = some ⟨100, .ReliableSliceMessage 0 0 1⟩ ∧
+    gdec (toNats ackS) = some (.Ack 0 [⟨3, 4⟩]) := by decide +kernel
+
+/-- **`src_never_after_ack` applied**, slice form: after the Ack for packet 3 no datagram read by the generated decoder
+    carries slice 1 of message 0 -/
+example : ∃ news, gSE.flushes = gS.flushes ++ news ∧ ∀ bs ∈ news, ∀ b ∈ bs, ∀ gp, GDecodes b gp →
+    ¬ GCarriesSlice 0 0 1 gp := by
+  obtain ⟨news, h1, h2⟩ := src_never_after_ack cfg opsS extS ackS gS gSE grunS grunSE (by decide +kernel) (by decide +kernel)
+    (by decide +kernel) (by decide +kernel) (gdecodes_of_gdec sfacts.2.2) (q := 3) sfacts.2.1
+    ⟨⟨3, 4⟩, by simp, by decide, by decide⟩
+  exact ⟨news, h1, fun bs hbs b hb gp hgp => (h2 bs hbs b hb gp hgp).2 0 0 1 rfl⟩
+
+/-- **`src_not_early` applied**, slice form (`w = some 1`): flush 1 and flush 2 both transmit slice 1 of message 0 (second
+    datagram of each), so `resend_time` is at most the 100 ns between them -/
+example : ∀ s, RustSem.Map.find? gS2.cl.send_reliable_channels 0 = some s →
+    s.resend_time ≤ gS2.cl.current_time - gS0.cl.current_time := by
+  obtain ⟨bs1, bs2, e1, e2, h⟩ := src_not_early cfg (opsS.take 2) [.update 100] gS0 gS1 gS2 gS
+    grunS0 grunS1 grunS2 grunS' (by decide +kernel) (by decide +kernel) (by decide +kernel) 0 0 (some 1)
+  have f1 : gS1.flushes = gS0.flushes ++ [gS.flushes.getD 0 []] := by decide +kernel
+  have f2 : gS.flushes = gS2.flushes ++ [gS.flushes.getD 1 []] := by decide +kernel
+  have b1 : bs1 = gS.flushes.getD 0 [] := by
+    rw [f1] at e1; have := List.append_cancel_left e1; simpa using this.symm
+  have b2 : bs2 = gS.flushes.getD 1 [] := by
+    have e2' := e2; rw [f2] at e2'; have := List.append_cancel_left e2'; simpa using this.symm
+  subst b1; subst b2
+  have d1 : ∃ gp, gdec ((gS.flushes.getD 0 []).getD 1 []) = some gp ∧ GEmits 0 0 (some 1) gp := by decide +kernel
+  have d2 : ∃ gp, gdec ((gS.flushes.getD 1 []).getD 1 []) = some gp ∧ GEmits 0 0 (some 1) gp := by decide +kernel
+  obtain ⟨gp1, dd1, ee1⟩ := d1
+  obtain ⟨gp2, dd2, ee2⟩ := d2
+  exact h _ (by decide +kernel) _ (by decide +kernel) gp1 gp2 (gdecodes_of_gdec dd1) (gdecodes_of_gdec dd2) ee1 ee2
 
 end Ex
 
